@@ -143,6 +143,7 @@ func Run(sp *Spec) (*Result, error) {
 	}
 	defer in.Close()
 	var pipeW *os.File
+	feed := make(chan struct{}, 1<<16)
 	if sp.StdinPipe > 0 && sp.Stdin != "" {
 		data, err := os.ReadFile(sp.Stdin)
 		if err != nil {
@@ -157,6 +158,9 @@ func Run(sp *Spec) (*Result, error) {
 		go func() {
 			defer pw.Close()
 			for len(data) > 0 {
+				// one chunk per read call of the tracee: the pipe never
+				// holds more than the chunk the pending read will return
+				<-feed
 				n := min(sp.StdinPipe, len(data))
 				if _, err := pw.Write(data[:n]); err != nil {
 					return
@@ -334,6 +338,12 @@ func Run(sp *Spec) (*Result, error) {
 				switch th.sys {
 				case "read", "write", "close", "fsync", "ftruncate":
 					th.target = fdTarget(pid, th.fd)
+				}
+				if th.sys == "read" && th.target == "src" && pipeW != nil {
+					select {
+					case feed <- struct{}{}:
+					default:
+					}
 				}
 				if th.target != "" {
 					key := th.target + ":" + th.sys
